@@ -119,11 +119,49 @@ def real_split(url):
     return sp
 
 
+BUILDER_ERRORS = []
+
+
+def restrict_modes(cfg):
+    """the configuration as a user would spell it in --restrict-file-names (the os mode is implied for unix in about half of
+    the configurations: 'ascii,lower' means unix)"""
+    modes = []
+    if cfg['ascii_only']:
+        modes.append('ascii')
+    if not cfg['no_control']:
+        modes.append('nocontrol')
+    if cfg['case']:
+        modes.append(cfg['case'])
+    if cfg['os_type'] == 'windows':
+        modes.insert(len(modes) // 2, 'windows')
+    elif (len(cfg['index']) + (cfg['cut'] or 0) + len(modes)) % 2 == 0 or not modes:
+        modes.append('unix')
+    return modes
+
+
 def namer(cfg, root):
-    return P.PathNamer(root, index=S(cfg['index']), use_dir=cfg['use_dir'], cut=cfg['cut'],
-                       protocol=cfg['protocol'], hostname=cfg['hostname'], os_type=cfg['os_type'],
-                       no_control=cfg['no_control'], ascii_only=cfg['ascii_only'], case=cfg['case'],
-                       max_filename_length=cfg['max_len'])
+    """the PathNamer the application builds for these options: the real FileWriterSetupTask translates the option values
+    (a direct construction is used only when that code cannot be driven; the failure is reported)"""
+    NS = types.SimpleNamespace
+    try:
+        from wpull.application.tasks.writer import FileWriterSetupTask
+        from wpull.application.factory import Factory
+        factory = Factory({'PathNamer': P.PathNamer, 'FileWriter': None})
+        args = NS(delete_after=False, output_document=None, urls=['u1', 'u2'], page_requisites=False, recursive=False,
+                  use_directories='force' if cfg['use_dir'] else 'no', restrict_file_names=restrict_modes(cfg),
+                  directory_prefix=root, default_page=S(cfg['index']), cut_dirs=cfg['cut'], protocol_directories=cfg['protocol'],
+                  host_directories=cfg['hostname'], max_filename_length=cfg['max_len'], continue_download=False,
+                  clobber_method='enable', timestamping=False, save_headers=False, use_server_timestamps=True,
+                  adjust_extension=False, content_disposition=False, trust_server_names=False)
+        FileWriterSetupTask._build_file_writer(NS(args=args, factory=factory))
+        return factory['PathNamer']
+    except Exception as e:          # the set-up task has changed shape: fall back, and say so
+        if len(BUILDER_ERRORS) < 3:
+            BUILDER_ERRORS.append('%s: %s' % (type(e).__name__, e))
+        return P.PathNamer(root, index=S(cfg['index']), use_dir=cfg['use_dir'], cut=cfg['cut'],
+                           protocol=cfg['protocol'], hostname=cfg['hostname'], os_type=cfg['os_type'],
+                           no_control=cfg['no_control'], ascii_only=cfg['ascii_only'], case=cfg['case'],
+                           max_filename_length=cfg['max_len'])
 
 
 def split_parts(url, scheme):
@@ -627,6 +665,7 @@ def main():
         else:
             raise ValueError(k)
     out['results'] = res
+    out['builder_errors'] = BUILDER_ERRORS
     print(json.dumps(out))
 
 
